@@ -75,7 +75,7 @@ ends_ws = z3.Function("ends_ws", StrS, BoolS)
 
 # A-STR: str(n) of the numerals that occur as wire constants is their decimal literal
 from .core import BASE_AXIOMS  # noqa: E402
-for _n in range(-1, 301):
+for _n in list(range(-1, 41)) + [253, 254, 255, 256, 300]:
     BASE_AXIOMS.append(dec(z3.IntVal(_n)) == z3.StringVal(str(_n)))
 
 
